@@ -3,6 +3,12 @@
 import json, subprocess
 
 CHECKS = {
+ "C04": ("exploration", "exhaustive enumeration (all bases and base+1 diacritic × all feature/node/alpha rules) against a bit-level reference model",
+         "Every base phone and every base+diacritic segment, alone and inside a three-syllable word, under every `[] > [±F]`, `[] > [±node]`, `[±F]/[±node] > marker`, `[αF] > [±αG]` (26×26) and node-alpha rule; asca's structural result is compared with a 30-line bit-level model of matching and setting. Exhaustive for that finite space in both tiers.",
+         "Trusted: the feature→(node,bit) chart typed from the manual; conversion from asca::Segment through public accessors (checked separately by C18).", "DESIGN.md §5 C04"),
+ "C05": ("exploration", "exhaustive enumeration of 36 states × 405 modifier combinations × 7 element kinds × 3 positions against a table model of the manual",
+         "Every suprasegmental state of a target segment/syllable under every combination of length, stress and tone modifiers, used as an input modifier on IPA/group/matrix/% and as an output matrix on a segment or %; match outcome and resulting state are compared with a table model typed from the manual (validity predicate where the manual leaves a choice). Exhaustive in both tiers.",
+         "Trusted: the table model's reading of the manual's three-way tables; where the manual is silent (length in a matrix applied to %, [-sec.stress] on a secondary-stressed syllable) every consistent behaviour is accepted.", "DESIGN.md §5 C05"),
  "C01": ("exploration", "differential across K fresh worker processes (distinct std hash seeds) + repeat call + word-order metamorphic relation; exhaustive tie slice",
          "The same generated and enumerated inputs are run in 8 (quick) / 16 (thorough) fresh processes whose transcripts (Ok strings or Debug of the Err, plus the trace string) are compared case by case by the driver; inside each process a repeated call and a reversed word list must agree. The tie slice enumerates every base / base+diacritic under every single feature change, i.e. all segments whose rendering needs a tie-break or diacritic composition.",
          "The per-process hash seed is chosen by the OS, not by VERIF_SEED (that is the property's quantifier); a hash-order dependence on a tie-sensitive input is missed with probability about 2^-(K-1) per input, and thousands of such inputs are run. Replay re-runs the saved case in 12 fresh processes.", "DESIGN.md §5 C01"),
